@@ -56,6 +56,7 @@ class Harness:
         self.funs = {}
         self.claims = []
         self.log = []
+        self.stub_gaps = []      # backend API the code under test asked a contract stub for and the stub does not model
         self.missing = []
         self.preferred = []     # soft constraints used only to pick readable validation models
 
@@ -305,10 +306,14 @@ def _run_concrete(ob, env, purpose):
         try:
             ob.func(h, *ob.args)
         except Exception as e:     # noqa: BLE001
+            if symx.raised_by_harness(e):
+                raise symx.Unsupported(f'exception raised by harness/stub code in the concrete run: {e!r}') from e
             exc = e
             h.claims.append(Claim('no-unexpected-exception', False, {}, repr(e)))
         finally:
             numpy.seterr(**old)
+    if h.stub_gaps:
+        raise symx.Unsupported(f'the code under test used backend API the stub does not model: {sorted(set(h.stub_gaps))}')
     return h, exc
 
 
@@ -339,11 +344,15 @@ def discharge(ob, findings, prop, tier):
         try:
             ob.func(h, *ob.args)
         except Exception as e:    # noqa: BLE001
+            if symx.raised_by_harness(e):
+                raise symx.Unsupported(f'exception raised by harness/stub code: {type(e).__name__}: {_short(e, 200)}') from e
             h.claims.append(Claim('no-unexpected-exception', False, {}, f'{type(e).__name__}: {_short(e, 200)}'))
             h.log.append(traceback.format_exc(limit=6))
         finally:
             for o, a, v in saved:
                 setattr(o, a, v)
+        if h.stub_gaps:
+            raise symx.Unsupported(f'the code under test used backend API the stub does not model: {sorted(set(h.stub_gaps))}')
         # final feasibility of the path (assumptions may have been added after the last branch)
         st = symx.cur()
         if st.check(z3.BoolVal(True)) == 'unsat':
